@@ -64,7 +64,7 @@ def setup(E, shape):
     pol = shape.get("policy", "DualNorm")
     vk = shape.get("vars", ["boxed"])
     ck = shape.get("cons", [])
-    started = dict(loop=False)
+    started = dict(loop=False, bad=[])
     faults = None
     if shape.get("start_faults"):
         # any of the evaluations made before the first trial step may return a non-finite value
@@ -72,11 +72,21 @@ def setup(E, shape):
             if started["loop"]:
                 return v
             b = E.fresh_bool(f"bad_{kind}")
+            started["bad"].append((kind, b))
             if boot.MODE == "sym":
                 return core.SR(core.zexpr(v), bad=b.e)
             return float("nan") if b else v
 
-    user, spec = common.make_problem(E, vk, ck, fmt=shape.get("fmt", "coo"), faults=faults, policy=shape.get("policy_cb", "fresh"))
+    pf = None
+    if shape.get("start_point_faults"):
+        # failing evaluations as a property of the point (uninterpreted boolean functions of x): whether a
+        # callback fails at the starting point does not depend on whether the library asks
+        def pf(kind, xs):
+            if started["loop"]:
+                return False
+            return E.ufb("bad_" + kind, *xs)
+
+    user, spec = common.make_problem(E, vk, ck, fmt=shape.get("fmt", "coo"), faults=faults, policy=shape.get("policy_cb", "fresh"), point_faults=pf)
     clock = boot.Clock(E)
     boot.mod("timer").time = clock
     spy = TimerSpy(boot.mod("timer").Timer)
@@ -123,7 +133,7 @@ def setup(E, shape):
     )
     owned_snap = common.snapshot([("user.var_lb", user.var_lb), ("user.var_ub", user.var_ub), ("user.cons_lb", user.cons_lb), ("user.cons_ub", user.cons_ub)])
     solver = S.Solver(user, params)
-    ctx = types.SimpleNamespace(owned_snap=owned_snap, E=E, shape=shape, K=K, pol=pol, user=user, spec=spec, clock=clock, spy=spy, params=params, solver=solver, lim=lim, tl=tl, trials=[], cbs=[], rhos_in_cb=[])
+    ctx = types.SimpleNamespace(start_bad=started["bad"], owned_snap=owned_snap, E=E, shape=shape, K=K, pol=pol, user=user, spec=spec, clock=clock, spy=spy, params=params, solver=solver, lim=lim, tl=tl, trials=[], cbs=[], rhos_in_cb=[])
     prob = solver.problem
     lb, ub = items(prob.var_lb), items(prob.var_ub)
     ctx.lb, ctx.ub = lb, ub
@@ -171,7 +181,8 @@ def setup(E, shape):
     x0 = []
     for j in range(spec["n"]):
         v = E.real(f"x0_{j}")
-        E.assume(land(spec["xl"][j] <= v, v <= spec["xu"][j]))
+        if not shape.get("x0_outside"):  # a start outside the box is legal input: only the C02 shapes that ask for it use one
+            E.assume(land(spec["xl"][j] <= v, v <= spec["xu"][j]))
         x0.append(v)
     y0 = [E.real(f"y0_{i}") for i in range(spec["m"])]
     ctx.x0, ctx.y0 = x0, y0
@@ -189,7 +200,7 @@ def run(ctx):
         if "Inverse step size" in str(e) and type(e) is Exception:
             ctx.res = None
             ctx.aborted = True
-        elif "Failed to evaluate initial iterate" in str(e) and type(e) is Exception and ctx.shape.get("start_faults"):
+        elif "Failed to evaluate initial iterate" in str(e) and type(e) is Exception and (ctx.shape.get("start_faults") or ctx.shape.get("start_point_faults")):
             ctx.res = None
             ctx.aborted = True
             ctx.initial_failure = True
@@ -248,6 +259,13 @@ def check(ctx):
             if not moved:
                 if ctx.pol not in ("ObjectiveFilter", "LagrangianFilter"):
                     E.prove(t["rho"] == q["rho"], "C16.rho_changes_only_on_accept")
+    if ctx.shape.get("start_point_faults"):
+        kinds = ["obj", "obj_grad", "lag_hess"] + (["cons", "cons_jac"] if ctx.spec["m"] else [])
+        anyb = False
+        for kind in kinds:
+            anyb = lor(anyb, E.ufb("bad_" + kind, *ctx.x0))
+        # the dedicated error is raised iff one of the callbacks fails at the starting point
+        E.prove(iff(bool(getattr(ctx, "initial_failure", False)), anyb), "C07.initial_error_iff_a_callback_fails_at_the_start")
     if getattr(ctx, "initial_failure", False):
         E.prove(len(trials) == 0, "C07.initial_point_failure_is_the_dedicated_error_before_any_step")
         return
@@ -259,6 +277,12 @@ def check(ctx):
             if isinstance(q, core.SR) and q.bad is not None:
                 bad = lor(bad, core.SB(q.bad))
         E.prove(lnot(bad), "C07.solve_proceeds_only_from_a_finite_start")
+        # ... including the Jacobian and the Hessian: every value any callback returned before the
+        # first trial step was finite
+        anyb = False
+        for kind, b in ctx.start_bad:
+            anyb = lor(anyb, b)
+        E.prove(lnot(anyb), "C07.solve_proceeds_only_if_every_start_evaluation_was_finite")
     if getattr(ctx, "deriv_error", False):
         E.prove(len(trials) == 0, "C19.derivative_error_is_raised_before_the_first_step")
         return
@@ -319,7 +343,13 @@ def check(ctx):
             gr.append(gj)
         E.prove(common.inf_norm(gr) <= p.local_infeas_tol, "C02.locally_infeasible.stationary_for_violation")
     if st == Status.Unbounded:
-        E.prove(cv <= tol, "C02.unbounded.feasible")
+        bv = 0.0
+        for j in range(O["N"]):
+            if ctx.lb[j] != -INF:
+                bv = smax(bv, ctx.lb[j] - O["x"][j])
+            if ctx.ub[j] != INF:
+                bv = smax(bv, O["x"][j] - ctx.ub[j])
+        E.prove(land(cv <= tol, bv <= tol), "C02.unbounded.feasible")
         E.prove(O["f"] <= p.obj_lower_limit, "C02.unbounded.objective_below_limit")
     # ---------------- C12 accepted steps, callbacks, path
     cur = ctx.start_iterate
@@ -402,7 +432,7 @@ def loop_tasks(combos, K, opts=None):
         if c.get("policy") in HEAVY and c.get("cons") and K > 2:
             Kc = 2  # 15 k paths / 20 min single core at K=3 (measured): these two policies stay at K=2
         sh = dict(K=Kc, policy=c.get("policy", "DualNorm"), vars=c.get("vars", ["boxed"]), cons=c.get("cons", []))
-        for k in ("limit", "time_limit", "collect_path", "fmt", "deriv_check", "start_faults", "policy_cb", "scaling", "step_failures"):
+        for k in ("limit", "time_limit", "collect_path", "fmt", "deriv_check", "start_faults", "policy_cb", "scaling", "step_failures", "x0_outside", "start_point_faults"):
             if k in c:
                 sh[k] = c[k]
         o = dict(mulmode="uf", timeout_ms=20000)
